@@ -103,6 +103,40 @@ class Classifier:
         roots = g.origins(e, at)
         return bool(roots) and all(is_call_to(r, "type") and len(r.args) == 1 and dotted(r.args[0]) == var for r, _, _ in roots)
 
+    def _names_exact_container(self, fi: FunctionInfo, y: ast.AST) -> bool:
+        """y names an exact builtin container class: directly (`list`), or as the loop variable of a `for` over a module-level
+        table of the package whose entries at that position all are such names (`for cls, alias in ((list, List), (set, Set))`)"""
+        if (dotted(y) or "") in EXACT_CONTAINERS:
+            return True
+        if not isinstance(y, ast.Name):
+            return False
+        for loop in [z for z in walk_no_nested(fi.node) if isinstance(z, ast.For)]:
+            tgt = loop.target
+            idx: Optional[int] = None
+            if isinstance(tgt, ast.Name) and tgt.id == y.id:
+                idx = -1
+            elif isinstance(tgt, (ast.Tuple, ast.List)):
+                idx = next((i for i, t in enumerate(tgt.elts) if isinstance(t, ast.Name) and t.id == y.id), None)
+            if idx is None:
+                continue
+            # the name is bound by this loop only
+            stores = [z for z in walk_no_nested(fi.node) if isinstance(z, ast.Name) and z.id == y.id and isinstance(z.ctx, ast.Store)]
+            if len(stores) != 1 or y.id in fi.params:
+                return False
+            table = fi.module.constants.get(loop.iter.id) if isinstance(loop.iter, ast.Name) else (loop.iter if isinstance(loop.iter, (ast.Tuple, ast.List)) else None)
+            if not isinstance(table, (ast.Tuple, ast.List)) or not table.elts:
+                return False
+            col = []
+            for row in table.elts:
+                if idx == -1:
+                    col.append(row)
+                elif isinstance(row, (ast.Tuple, ast.List)) and len(row.elts) > idx:
+                    col.append(row.elts[idx])
+                else:
+                    return False
+            return all((dotted(c) or "") in EXACT_CONTAINERS for c in col)
+        return False
+
     def _class_names(self, e: ast.AST) -> List[str]:
         if isinstance(e, ast.Tuple):
             return [dotted(x) or norm(x) for x in e.elts]
@@ -119,7 +153,7 @@ class Classifier:
             if isinstance(a, ast.Compare) and len(a.ops) == 1 and isinstance(a.ops[0], (ast.Is, ast.IsNot)):
                 l, r = a.left, a.comparators[0]
                 for x, y in ((l, r), (r, l)):
-                    if (dotted(y) or "") in EXACT_CONTAINERS and self._type_of_var(x, g, cn.id, var) and g.same_value(ast.Name(id=var), cn.id, node):
+                    if self._names_exact_container(fi, y) and self._type_of_var(x, g, cn.id, var) and g.same_value(ast.Name(id=var), cn.id, node):
                         edges.append((cn.id, "T" if isinstance(a.ops[0], ast.Is) else "F"))
         if edges and node not in g.reach(g.entry, avoid_edges=edges, labels_excluded=("exc",)):
             return True
@@ -381,12 +415,28 @@ class Classifier:
         cont = self._key_source(fi, comp, var)
         if cont is None:
             return False
+        def known_true(a: ast.AST, pol: bool, at_node: int, depth: int = 0) -> List[ast.AST]:
+            """the atoms that hold when the test `a` came out `pol`: through `not`, conjunctions (true) / disjunctions (false)
+            and a local name that holds the test's value"""
+            if depth > 4:
+                return []
+            if isinstance(a, ast.UnaryOp) and isinstance(a.op, ast.Not):
+                return known_true(a.operand, not pol, at_node, depth + 1)
+            if isinstance(a, ast.BoolOp) and isinstance(a.op, ast.And) and pol:
+                return [x for v in a.values for x in known_true(v, True, at_node, depth + 1)]
+            if isinstance(a, ast.BoolOp) and isinstance(a.op, ast.Or) and not pol:
+                return [x for v in a.values for x in known_true(v, False, at_node, depth + 1)]
+            if isinstance(a, ast.Name):
+                orig = [r for r, k_, _ in g.origins(a, at_node)]
+                if len(orig) == 1 and not isinstance(orig[0], ast.Name):
+                    return known_true(orig[0], pol, at_node, depth + 1)
+                return []
+            return [a] if pol else []
+
         for cn, pol in g.guards(at):
-            if not pol:
+            cands = known_true(cn.ast, pol, cn.id)
+            if not cands:
                 continue
-            cands = [cn.ast]
-            if isinstance(cn.ast, ast.Name):
-                cands = [r for r, _, _ in g.origins(cn.ast, cn.id)]
             more: List[Tuple[ast.AST, str]] = []
             for a in cands:
                 # the test may live in a helper predicate: f(cont, ...) whose every return is a conjunction containing it
@@ -409,6 +459,16 @@ class Classifier:
                             if okc:
                                 more.extend((h, pname) for h in conj)
             for a, cont_here in [(a, cont) for a in cands] + more:
+                if is_call_to(a, "all") and len(a.args) == 1 and is_call_to(a.args[0], "map") and len(a.args[0].args) == 2 and not a.args[0].keywords:
+                    # all(map(pred, cont.keys())) is all(pred(k) for k in cont.keys())
+                    pred_f, src_m = a.args[0].args
+                    if isinstance(src_m, ast.Call) and isinstance(src_m.func, ast.Attribute) and src_m.func.attr == "keys" and dotted(src_m.func.value) == cont_here or dotted(src_m) == cont_here:
+                        fake_e = ast.Call(func=pred_f, args=[ast.Name(id="__mapped__", ctx=ast.Load())], keywords=[])
+                        ast.copy_location(fake_e, a)
+                        ast.fix_missing_locations(fake_e)
+                        if self._scalar_pred(fi, fake_e, "__mapped__"):
+                            return True
+                    continue
                 if is_call_to(a, "all") and a.args and isinstance(a.args[0], (ast.GeneratorExp, ast.ListComp)):
                     ge = a.args[0]
                     gen = ge.generators[0]
@@ -1012,10 +1072,11 @@ PROCESS_WIDE_ATTRS = {"sys": None, "builtins": None, "os": {"environ"}}  # modul
 MUTATING_METHODS = {"insert", "append", "extend", "remove", "pop", "clear", "update", "setdefault", "popitem", "sort", "reverse", "__setitem__", "__delitem__"}
 # the command line front end is its own process set-up, documented as such: `monkeytype run script.py` runs the script like
 # `python script.py` would (own sys.argv, current directory importable)
+# keyed by (module, object): WHICH function of the front end does it is the front end's own business
 PROCESS_WIDE_ALLOWED = {
-    ("monkeytype.cli.run_handler", "sys.argv"): "`monkeytype run` gives the script the argv it would have as `python script.py args` and restores it",
-    ("monkeytype.cli.entry_point_main", "sys.path"): "the command line tool makes the current directory importable, as `python` itself does",
-    ("monkeytype.compat.<module level>", "mypy_extensions._TypedDictMeta.__eq__"):
+    ("monkeytype.cli", "sys.argv"): "`monkeytype run` gives the script the argv it would have as `python script.py args` and restores it",
+    ("monkeytype.cli", "sys.path"): "the command line tool makes the current directory importable, as `python` itself does",
+    ("monkeytype.compat", "mypy_extensions._TypedDictMeta.__eq__"):
         "the one catalogued patch: TypedDict classes compare by name, totality and fields (compat_rules decides what it answers); hashing stays by identity",
 }
 
@@ -1024,6 +1085,22 @@ def rule_process_wide_setters(ctx: Ctx, repo: Repo) -> None:
     """R-C03.6 (second half): no code of the package - module level, class bodies, functions - calls a standard-library
     function that sets process-wide state, or mutates / rebinds a process-wide object, outside the allowed table."""
     n = n_allowed = 0
+    # the library part: what `import monkeytype` (and so every traced program) loads; the command line front end is allowed its
+    # own process set-up only as long as the library does not import it
+    library_closure: Set[str] = set()
+    todo_m = ["monkeytype"]
+    while todo_m:
+        mn = todo_m.pop()
+        if mn in library_closure or mn not in repo.modules:
+            continue
+        library_closure.add(mn)
+        for tgt in repo.modules[mn].imports.values():
+            parts = tgt.split(".")
+            for i in range(len(parts), 0, -1):
+                cand = ".".join(parts[:i])
+                if cand in repo.modules:
+                    todo_m.append(cand)
+                    break
     for mod in repo.modules.values():
         if not mod.name.startswith("monkeytype"):
             continue
@@ -1081,9 +1158,9 @@ def rule_process_wide_setters(ctx: Ctx, repo: Repo) -> None:
             if hit is None:
                 continue
             w = where(x)
-            if (w, hit[0]) in PROCESS_WIDE_ALLOWED:
+            if (mod.name, hit[0]) in PROCESS_WIDE_ALLOWED and (mod.name not in library_closure or mod.name == "monkeytype.compat"):
                 n_allowed += 1
-                ctx.ok("R-C03.6", w, f"{hit[1]}: allowed - {PROCESS_WIDE_ALLOWED[(w, hit[0])]}")
+                ctx.ok("R-C03.6", w, f"{hit[1]}: allowed - {PROCESS_WIDE_ALLOWED[(mod.name, hit[0])]}")
                 continue
             ctx.violate("R-C03.6", w, hit[1],
                         "the package changes state that the traced program shares with it (the package is imported and runs inside the program's interpreter): the program no longer behaves as it does untraced",
